@@ -18,7 +18,8 @@ Record cfg := mkCfg {
 }.
 
 Record idata := mkIdata { id_host : N; id_mode : N; id_ref : N }.
-Record hdata := mkHdata { hd_inode : N; hd_host : N; hd_acc : N; hd_append : bool; hd_pos : N; hd_flags : N }.
+Record hdata := mkHdata { hd_inode : N; hd_host : N; hd_acc : N; hd_append : bool; hd_pos : N; hd_flags : N;
+                          hd_direct : bool (* O_DIRECT status of the descriptor *) }.
 
 Record pstate := mkP {
   p_host : host; p_creds : creds;
@@ -150,7 +151,7 @@ Definition open_inode (cf : cfg) (s : pstate) (inode flags : N) : res (N * N) * 
   end.
 
 Definition new_hdata (inode host_i fdflags reqflags : N) : hdata :=
-  mkHdata inode host_i fdflags (has fdflags O_APPEND) 0 reqflags.
+  mkHdata inode host_i fdflags (has fdflags O_APPEND) 0 reqflags (has fdflags O_DIRECT).
 
 Definition insert_handle (s : pstate) (hd : hdata) : N * pstate :=
   (p_next_handle s, mkP (p_host s) (p_creds s) (p_inodes s) (p_idmap s) (p_next_inode s)
@@ -199,7 +200,7 @@ Definition get_data (cf : cfg) (no : bool) (s : pstate) (handle inode flags : N)
 Definition check_fd_flags (s : pstate) (hid : option N) (hd : hdata) (flags : N) : hdata * pstate :=
   if hd_flags hd =? flags then (hd, s)
   else
-    let hd' := mkHdata (hd_inode hd) (hd_host hd) (hd_acc hd) (has flags O_APPEND) (hd_pos hd) flags in
+    let hd' := mkHdata (hd_inode hd) (hd_host hd) (hd_acc hd) (has flags O_APPEND) (hd_pos hd) flags (has flags O_DIRECT) in
     match hid with
     | Some k => (hd', mkP (p_host s) (p_creds s) (p_inodes s) (p_idmap s) (p_next_inode s)
                           (assoc_set k hd' (p_handles s)) (p_next_handle s))
@@ -230,6 +231,7 @@ Definition entry_reply (r : res (N * attr) * pstate) : reply * option N * pstate
 Inductive req :=
 | QLookup (parent : N) (n : name)
 | QForget (inode count : N)
+| QBatchForget (l : list (N * N))
 | QGetattr (inode : N) (handle : option N)
 | QSetattr (inode : N) (handle : option N) (valid mode uid gid size : N) (atime ansec mtime mnsec : N)
 | QMkdir (parent : N) (n : name) (mode umask uid gid : N)
@@ -322,6 +324,7 @@ Definition pstep (cf : cfg) (s : pstate) (q : req) : reply * option N * option N
       | None => ent (entry_reply (do_lookup s parent n))
       end
   | QForget inode count => noslot RpOk (forget_one s inode count)
+  | QBatchForget l => noslot RpOk (fold_left (fun s0 p => forget_one s0 (fst p) (snd p)) l s)
   | QGetattr inode handle =>
       match do_getattr cf s inode handle with
       | Ok a => noslot (RpAttr a) s
@@ -525,6 +528,8 @@ Definition pstep (cf : cfg) (s : pstate) (q : req) : reply * option N * option N
       | (Ok (hid, hd), s1) =>
           let (hd', s2) := check_fd_flags s1 hid hd flags in
           if negb (acc_r (hd_acc hd')) then noslot (RpErr EBADF) s2
+          (* O_DIRECT on the descriptor: offset, length and buffer must be block aligned; the server's buffers never are *)
+          else if hd_direct hd' && (0 <? size) then noslot (RpErr EINVAL) s2
           else match sys_pread (p_host s2) (hd_host hd') size off with
                | Ok d => noslot (RpData d) s2
                | Err e => noslot (RpErr e) s2
@@ -537,6 +542,7 @@ Definition pstep (cf : cfg) (s : pstate) (q : req) : reply * option N * option N
           let (hd', s2) := check_fd_flags s1 hid hd flags in
           let '(r, s3) := with_killpriv (c_killpriv cf && has fuse_flags WRITE_KILL_PRIV) s2 (fun s0 =>
               if negb (acc_w (hd_acc hd')) then (Err EBADF, s0)
+              else if hd_direct hd' && (0 <? len data) then (Err EINVAL, s0)
               else let (r, h') := sys_pwrite (p_creds s0) (p_host s0) (hd_host hd') (hd_append hd') off data in
                    (r, with_host s0 h')) in
           match r with
@@ -617,7 +623,7 @@ Definition pstep (cf : cfg) (s : pstate) (q : req) : reply * option N * option N
                   if 9223372036854775807 <? p then noslot (RpErr EINVAL) s
                   else noslot (RpCount p)
                          (mkP (p_host s) (p_creds s) (p_inodes s) (p_idmap s) (p_next_inode s)
-                              (assoc_set handle (mkHdata (hd_inode hd) (hd_host hd) (hd_acc hd) (hd_append hd) p (hd_flags hd))
+                              (assoc_set handle (mkHdata (hd_inode hd) (hd_host hd) (hd_acc hd) (hd_append hd) p (hd_flags hd) (hd_direct hd))
                                          (p_handles s)) (p_next_handle s))
               end
           end
@@ -657,6 +663,7 @@ Definition deref (l : list N) (r : ref) : N :=
 Inductive sreq :=
 | SLookup (p : ref) (n : name)
 | SForget (i : ref) (count : N)
+| SBatchForget (l : list (ref * N))
 | SGetattr (i : ref) (h : option ref)
 | SSetattr (i : ref) (h : option ref) (valid mode uid gid size atime ansec mtime mnsec : N)
 | SMkdir (p : ref) (n : name) (mode umask uid gid : N)
@@ -690,6 +697,7 @@ Definition resolve (is hs : list N) (q : sreq) : req :=
   match q with
   | SLookup p n => QLookup (I p) n
   | SForget i c => QForget (I i) c
+  | SBatchForget l => QBatchForget (map (fun p => (I (fst p), snd p)) l)
   | SGetattr i h => QGetattr (I i) (option_map H h)
   | SSetattr i h v m u g sz a an mt mn => QSetattr (I i) (option_map H h) v m u g sz a an mt mn
   | SMkdir p n m um u g => QMkdir (I p) n m um u g
